@@ -180,9 +180,9 @@ def _scenarios(tier, seed):
         scen.append({"ctype": kind, "label": "core-defaults", "model": "omae_v_hs", "sample": {"n": 50000, "seed": 6}, "alpha": 0.02,
                      "deg_step": 3, "allowed_error": 0.01, "global_seed": 2})
         # small sample: the warning path (only closure / ray are claimed there)
-        scen.append({"ctype": kind, "label": "core-warn", "model": "dnvgl_hs_tz", "sample": {"n": 200, "seed": 7}, "alpha": 0.01,
+        scen.append({"ctype": kind, "label": "core-warn", "model": "dnvgl_hs_tz", "sample": {"n": 200, "seed": 7}, "alpha": 0.013,
                      "deg_step": 10, "allowed_error": 0.005, "global_seed": 3})
-    n_rand = 10 if tier == "quick" else 150
+    n_rand = 40 if tier == "quick" else 600
     names = list(A.FIXED_2D)
     for i in range(n_rand):
         for kind in ("AND", "OR"):
